@@ -46,7 +46,7 @@ def setup() -> None:
 
 
 def budget(tier: str) -> int:
-    return 2500 if tier == "quick" else 30000 + MAXEXP // WINDOW + 700
+    return 2500 if tier == "quick" else 100000 + MAXEXP // WINDOW + 700
 
 
 def _exp_value(ch: core.Chooser) -> int:
